@@ -245,7 +245,7 @@ theorem WFInv_add {s s' : State} {id : Nat} {c : Coins} {now : Int} (h : WFInv s
     subst hc
     exact h
 
-theorem WFInv_epoch {s s' : State} {now : Int} {thr : Thr} {locks : List Lock} {info : Info} (h : WFInv s)
+theorem WFInv_epoch {s s' : State} {now : Int} {thr : Quotes} {locks : List Lock} {info : Info} (h : WFInv s)
     (hc : epoch s now thr locks = some (s', info)) : WFInv s' := by
   unfold epoch at hc
   cases hact : activate now s.upcoming s.active with
@@ -259,7 +259,7 @@ theorem WFInv_epoch {s s' : State} {now : Int} {thr : Thr} {locks : List Lock} {
     | some snap =>
       rw [hsn] at hc
       simp only at hc
-      cases hd : distributeLoop thr locks snap s.gauges [] with
+      cases hd : distributeLoop ⟨thr, []⟩ locks snap s.gauges [] with
       | none => rw [hd] at hc; cases hc
       | some si =>
         obtain ⟨store, inf⟩ := si
